@@ -498,6 +498,14 @@ fn drive_seq<S: Settings, C: StorageConfig>(
         })
         .collect();
     let inspect_at = case.get("inspect_at").and_then(|x| x.as_u64());
+    // steps before which every chain storage is flushed (flushing must not change what the
+    // backend finally returns)
+    let flush_at: Vec<u64> = case
+        .get("flush_at")
+        .and_then(|x| x.as_array())
+        .map(|a| a.iter().filter_map(|x| x.as_u64()).collect())
+        .unwrap_or_default();
+    let mut flush_errors: Vec<String> = vec![];
 
     let mut chains = vec![];
     let mut storages = vec![];
@@ -542,6 +550,15 @@ fn drive_seq<S: Settings, C: StorageConfig>(
             inspect_out = fin_out(r, read, &schema);
             inspect_out["at"] = json!(step);
             inspect_out["counts"] = json!(counts);
+        }
+        if flush_at.contains(&step) {
+            for st in storages.iter().filter_map(|s| s.as_ref()) {
+                match catch(|| st.flush()) {
+                    Ok(Ok(())) => {}
+                    Ok(Err(e)) => flush_errors.push(format!("flush err at {step}: {e:#}")),
+                    Err(p) => flush_errors.push(format!("flush panic at {step}: {p}")),
+                }
+            }
         }
         if step == total {
             break;
@@ -601,7 +618,7 @@ fn drive_seq<S: Settings, C: StorageConfig>(
     let final_out = fin_out(r, read, &schema);
     let history = log.lock().unwrap().clone();
     json!({"id": case["id"], "new_trace": "ok", "mode": "seq", "schema": schema, "history": history,
-           "chain_status": chain_status, "inspect": inspect_out, "final": final_out})
+           "chain_status": chain_status, "inspect": inspect_out, "final": final_out, "flush_errors": flush_errors})
 }
 
 fn drive_sampler<S: Settings, C: StorageConfig>(
